@@ -146,6 +146,13 @@ func registerIntrinsics(x *Exec) {
 		"internal/race.ReadRange", "internal/race.WriteRange"} {
 		in[n] = noop
 	}
+	in["os.ReadFile"] = func(x *Exec, fr *frame, args []Value, _ *ssa.CallCommon) Value {
+		// environment stub: the file does not exist (harnesses that need file
+		// contents pre-populate caches instead)
+		x.Stubs["os.ReadFile -> error (no such file)"] = true
+		x.events = append(x.events, Event{Kind: "ReadFile", Args: []Value{args[0]}})
+		return Agg{Agg{c64(0), c64(0), c64(0)}, x.opaqueIface("os.ReadFile:ENOENT")}
+	}
 	in["fmt.Errorf"] = func(x *Exec, fr *frame, args []Value, _ *ssa.CallCommon) Value {
 		x.Stubs["fmt.Errorf -> opaque non-nil error"] = true
 		return x.opaqueIface("fmt.Errorf")
